@@ -201,7 +201,56 @@ def _names_case(rows1, rows2):
     return fails
 
 
+def _construction_case(rows1, rows2, rng):
+    """hand-built Aggregates: covariance keys written in either order, dict entries inserted in any order, and the
+    augmented assignment a += b - always the Aggregates of the concatenation"""
+    import tea_tasting.aggr as A
+    n1, m1, v1, c1 = G.exact_aggr_dicts(rows1, G.COLS)
+    n2, m2, v2, c2 = G.exact_aggr_dicts(rows2, G.COLS)
+    nc, mc, vc, cc = G.exact_aggr_dicts(rows1 + rows2, G.COLS)
+
+    def shuffled(d, flip=False):
+        items = list(d.items())
+        rng.shuffle(items)
+        return {((k[1], k[0]) if flip and isinstance(k, tuple) and rng.random() < 0.5 else k): v for k, v in items}
+    a = A.Aggregates(count_=n1, mean_=shuffled(m1), var_=shuffled(v1), cov_=shuffled(c1, flip=True))
+    b = A.Aggregates(count_=n2, mean_=shuffled(m2), var_=shuffled(v2), cov_=shuffled(c2, flip=True))
+    fails = []
+    try:
+        s = a + b
+        t = a
+        t += b
+        for label, x in (("a + b", s), ("a += b", t)):
+            if x.count_ != nc:
+                fails.append((f"{label}: count", f"{x.count_} != {nc}"))
+            for k in G.COLS:
+                if x.mean(k) != mc[k] or x.var(k) != vc[k]:
+                    fails.append((f"{label}: mean / var of {k} with shuffled dict order", f"{x.mean(k)}, {x.var(k)} != {mc[k]}, {vc[k]}"))
+            for (p_, q_), v in cc.items():
+                if x.cov(p_, q_) != v or x.cov(q_, p_) != v:
+                    fails.append((f"{label}: cov({p_},{q_}) with keys written in either order", f"{x.cov(p_, q_)} != {v}"))
+        if a.count_ != n1 or any(a.mean(k) != m1[k] or a.var(k) != v1[k] for k in G.COLS):
+            fails.append(("a += b modified the object a was bound to", ""))
+        if a.ratio_var("x", "y") != G.cov(_lin(rows1, "x", "y"), _lin(rows1, "x", "y")):
+            fails.append(("ratio_var on hand-built aggregates", ""))
+    except Exception as e:  # noqa: BLE001
+        fails.append((f"hand-built aggregates raised {type(e).__name__}", str(e)))
+    return fails
+
+
 def oracle(ctx, deep=False):
+    for i in range(ctx.n(20, 300)):
+        rows1, _ = _sample_agg(ctx.rng)
+        rows2, _ = _sample_agg(ctx.rng)
+        ctx.evaluations += 1
+        ctx.count("oracle:hand-built")
+        import random as _r
+        seed = ctx.rng.randint(0, 10**6)
+        fails = _construction_case(rows1, rows2, _r.Random(seed))
+        if fails:
+            ctx.violations.append({"what": fails[0][0], "detail": fails[0][1], "all": [f[0] for f in fails][:10],
+                                   "input": {"rows1": G.rows_json(rows1), "rows2": G.rows_json(rows2), "mode": "construction", "seed": seed}})
+            break
     for i in range(ctx.n(20, 300)):
         rows1, _ = _sample_agg(ctx.rng)
         rows2, _ = _sample_agg(ctx.rng)
@@ -262,7 +311,10 @@ def replay(ctx, rp):
                or any(l.cov_[p] != r.cov_[p] for p in l.cov_))
         return {"fails": bad, "what": "associativity"}
     rows1, rows2 = G.rows_from_json(inp["rows1"]), G.rows_from_json(inp["rows2"])
-    if inp["mode"] == "names":
+    if inp["mode"] == "construction":
+        import random as _r
+        fails = _construction_case(rows1, rows2, _r.Random(inp["seed"]))
+    elif inp["mode"] == "names":
         fails = _names_case(rows1, rows2)
     elif inp["mode"] == "float":
         fails = _check_sample_case(rows1, rows2, float, 1e-6)
